@@ -562,9 +562,13 @@ def check_posterior_frequencies(trace, emp, n_allele, cx):
 
 
 def check_as_array(post, emp, n_alleles, cx):
+    ng = M.n_genotypes(n_alleles, emp.ploidy)
+    if ng > 300000:
+        # a G-length array of this size (large pool x many labels) is not something to allocate per case
+        cx.col.count("as_array_skipped_more_than_300000_genotypes")
+        return
     cx.col.count("as_array_checked")
     arr = np.asarray(post.as_array(n_alleles), dtype=float)
-    ng = M.n_genotypes(n_alleles, emp.ploidy)
     if arr.shape != (ng,):
         cx.v("as-array-length-wrong", "as_array(%d) has shape %s, ploidy %d has %d genotypes" % (n_alleles, arr.shape, emp.ploidy, ng))
         return
@@ -574,9 +578,8 @@ def check_as_array(post, emp, n_alleles, cx):
     bad = np.nonzero(~(np.abs(arr - want) <= TOL_P))[0]
     if len(bad):
         i = int(bad[0])
-        gs = M.genotypes_vcf_order(n_alleles, emp.ploidy)
-        cx.v("as-array-probability-at-wrong-index", "as_array(%d)[%d] (genotype %s) = %.12g, relative frequency %.12g; %d of %d entries differ"
-             % (n_alleles, i, gs[i], arr[i], want[i], len(bad), ng))
+        cx.v("as-array-probability-at-wrong-index", "as_array(%d)[%d] = %.12g, relative frequency of the genotype with that VCF index %.12g; %d of %d entries differ"
+             % (n_alleles, i, arr[i], want[i], len(bad), ng))
 
 
 def check_incongruence(trace, emp, thr, cx, kind):
